@@ -2,7 +2,7 @@
    Property theorems only; each is closed by a lemma of Proofs/C09*.v.
    The model (Model/C09Model.v) is parametric in the variant of the code; [fixedv] is the
    repository with the four "fix:" commits of branch agent-c09, [origv] the unchanged tree. *)
-From GP Require Import Base C09Model C09Spec C09Seq C09Proofs C09Stream.
+From GP Require Import Base C09Model C09Spec C09Seq C09Proofs C09Stream C09Flush.
 Open Scope Z_scope.
 
 (* ------------------------------------------------------------------ (i) C09_seq *)
@@ -267,4 +267,49 @@ Example C09_stream_partial_nonvacuous :
              HData 5 4 false false 6; HSyn 2 7; HData 0 6 false false 8] in
   forallb seg_hop hs = true /\ forallb (hop_okb w_S) hs = true /\
   delivered (run_hist fixedv w_S 4294967293 (HSyn 2 1 :: hs)) = w_S.
+Proof. vm_compute. repeat split; reflexivity. Qed.
+
+(* ------------------------------------------------------------------ C09_stream_partial, with flushes *)
+
+(* abs_evs S pos evs pos': reading the events from delivery point pos, every ScatterGather has no
+   saved bytes, a skip >= 0, and carries exactly S[pos+skip, pos+skip+len) — the announced skip
+   stands for that many bytes of S —, and pos' is the delivery point at the end; no panic event.
+
+   For every stream shorter than 2^30 - 1, every ISN, every history: SYN first, then consistent
+   segments in any order (duplicates, overlaps, repeated SYN, FIN, RST) interleaved with
+   FlushWithOptions{T,TC} calls whose TC is not later than the first packet (they release data
+   beyond gaps but cannot close the connection), optionally FlushAll at the end; no page limit, no
+   KeepFrom.  The run does not stop, the events of the whole run satisfy abs_evs from offset 0 —
+   in order, nothing duplicated, altered or invented, every gap that is passed over is announced
+   with its exact length —, and a step that is a segment releases nothing beyond a gap (skip 0).
+   Missing for the full statement: page limits, KeepFrom, flushes that close (FlushCloseOlderThan
+   with a late time) followed by further traffic, the start-never-seen regime, that a skipped range
+   contains no byte that had arrived, and completion/progress. *)
+Theorem C09_stream_partial_flush : forall S i n0 ts0 mids tail,
+  zlen S < 1073741823 -> 0 <= n0 <= zlen S -> tail = [] \/ tail = [HFlushAll] ->
+  forallb (mid_hop ts0) mids = true -> forallb (hop_okb S) mids = true ->
+  let hs := HSyn n0 ts0 :: mids ++ tail in
+  let tr := run_hist fixedv S i hs in
+  length tr = length hs /\
+  (exists pos, abs_evs S 0 (concat (map fst tr)) pos) /\ clean_at_segs hs tr.
+Proof. exact flush_partial. Qed.
+Print Assumptions C09_stream_partial_flush.
+
+(* skipFlush: the first queued page, at offset o1 > pos, is handed over with skip = o1 - pos *)
+Theorem C09_skip_flush : forall S i pos rc st,
+  zlen S < 1073741823 -> inv2 S i pos rc st -> h_closed (s_half st) = false ->
+  exists st' ev pos', skip_flush fixedv st = (st', ev, false) /\
+    s_rev_seen st' = s_rev_seen st /\ abs_evs S pos ev pos' /\
+    (inv2 S i pos' rc st' \/ (rc = true /\ s_exists st' = false /\ h_closed (s_half st') = true)).
+Proof. exact skip_flush_ok. Qed.
+Print Assumptions C09_skip_flush.
+
+(* non-vacuity: across the wrap, a gap of two bytes released by a flush (skip 2), the rest by FlushAll *)
+Example C09_stream_partial_flush_nonvacuous :
+  let mids := [HData 4 2 false false 2; HData 0 2 false false 3; HFlush 10 1; HData 8 2 true false 4] in
+  forallb (mid_hop 1) mids = true /\ forallb (hop_okb w_S) mids = true /\
+  map (fun e => match e with ESG _ b _ _ k _ _ => (k, b) | _ => (-7, []) end)
+      (filter (fun e => match e with ESG _ _ _ _ _ _ _ => true | _ => false end)
+              (concat (map fst (run_hist fixedv w_S 4294967293 (HSyn 0 1 :: mids ++ [HFlushAll])))))
+  = [(0, []); (0, [0; 17]); (2, [68; 85]); (2, [136; 153])].
 Proof. vm_compute. repeat split; reflexivity. Qed.
